@@ -189,7 +189,12 @@ let blkpeer toks =
         | BoPass -> "P"
         | o -> out_letter o in
       let res = List.map (fun it ->
-          match String.split_on_char '/' it with
+          let fields = String.split_on_char '/' it in
+          let (fields, bidx) =
+            match fields with
+            | [a; b; c; d; e; f; g; h] -> ([a; b; c; d; e; f; g], Some (int_of_string h))
+            | l -> (l, None) in
+          match fields with
           | [n; m; s; sz; off; ln; tag] ->
               let off = max 0 (min blen (int_of_string off)) in
               let ln = max 0 (min (blen - off) (int_of_string ln)) in
@@ -198,6 +203,7 @@ let blkpeer toks =
               let tag = if res_u then String.sub tag 0 (String.length tag - 1) else tag in
               let tag = if tag = "" then "-" else tag in
               let ti = (if tag = "-" then 0 else int_of_string tag) + (if res_u then 50 else 0) in
+              let ti = match bidx with Some b -> b | None -> ti in
               let a = { ba_num = zi n; ba_m = zi m; ba_szx = zi s;
                         ba_size = (if sz = "-" then None else Some (zi sz));
                         ba_data = sub (body_t ti) off ln } in
